@@ -230,6 +230,47 @@ def family():
     return out
 
 
+# ---------------------------------------------------------------- statistics dimension
+CONF_PR = [0.5, 0.9, 0.95, 0.975, 0.9545, 0.99, 0.999]
+SIGMA_ACT = ["apriori", "aposteriori"]
+NOISE = [("small", 0.05), ("unit", 1.0), ("large", 5.0)]      # factor on the noise pattern: m0'/m0 below / inside / above the interval
+
+
+def _stat_templates():
+    """(name, dim, points, clusters) with the degrees of freedom in the name: levelling 0 1 2 3 5, 2-D 0 1 2 4"""
+    T = []
+    lv = [dh("A", "C"), dh("C", "D"), dh("D", "A"), dh("A", "C", sd=2.0), dh("C", "D", sd=4.0), dh("A", "D"), dh("D", "C", sd=2.5)]
+    for dof, n in ((0, 2), (1, 3), (2, 4), (3, 5), (5, 7)):
+        T.append(("lev-dof%d" % dof, "1", [("A", "fix"), ("C", "adj"), ("D", "adj")], [Cluster("height-differences", [o.copy() for o in lv[:n]])]))
+    pts = [("A", "fix"), ("B", "fix"), ("C", "adj")]
+    T.append(("dd2-dof0", "2", pts, [station("A", di("B"), di("C")), station("B", di("A"), di("C"))]))
+    T.append(("dd2-dof1", "2", pts, [station("A", di("B"), di("C"), ds("C")), station("B", di("A"), di("C"))]))
+    T.append(("dd2-dof2", "2", pts, [station("A", di("B"), di("C"), ds("C")), station("B", di("A"), di("C"), ds("C"))]))
+    T.append(("dd2-dof4", "2", pts, [station("A", di("B"), di("C"), ds("C")), station("B", di("A"), di("C"), ds("C")),
+                                     station("C", di("A"), di("B"), ds("A"))]))
+    return T
+
+
+def stats_names():
+    return [t[0] for t in _stat_templates()]
+
+
+def stats_net(name, noise, sigma_act, conf_pr):
+    """network of the statistics dimension: template x noise level x sigma-act x conf-pr"""
+    (nm, dim, pts, cls) = [t for t in _stat_templates() if t[0] == name][0]
+    net = Net([P(pn, dim, st) for (pn, st) in pts], [c.copy() for c in cls],
+              **{"sigma-apr": 10, "conf-pr": conf_pr, "tol-abs": 1000, "sigma-act": sigma_act})
+    net.description = "statistics %s noise %s" % (name, noise)
+    finish(net, "ne-l", 0)
+    f = dict(NOISE)[noise]
+    for c in net.clusters:
+        for o in c.obs: o.err = o.err * f
+    gnet.fill_values(net)
+    rename_all(net, PLAIN)
+    net.name = name; net.dimtype = dim
+    return net
+
+
 def rename_all(net, mp):
     for p in net.points: p.id = mp.get(p.id, p.id)
     for c in net.clusters:
